@@ -148,14 +148,14 @@ def fixCore (cnT cnA : List SRow) (rfT rfA : List RRow) (cfg : FixCfg) (P : FixP
   fixBody (if cnA.isEmpty then cnT else sortS (cnT ++ cnA)) (if cnA.isEmpty then rfT else sortR (rfT ++ rfA)) cfg P
 
 theorem doFix_eq (tgt anti : List SRow) (ref : List RRow) (cfg : FixCfg) (P : FixParams) :
-    doFix tgt anti ref cfg P =
+    doFixCore tgt anti ref cfg P =
       match loadAdjust tgt ref true cfg.gc cfg.edge false cfg.par P.permT P.wingT P.edgeKeysT with
       | .error e => .error e
       | .ok (cnT, rfT, _) =>
         match loadAdjust anti ref false cfg.gc false cfg.rmask cfg.par P.permA P.wingA with
         | .error e => .error e
         | .ok (cnA, rfA, _) => .ok (fixCore cnT cnA rfT rfA cfg P) := by
-  unfold doFix
+  unfold doFixCore
   cases loadAdjust tgt ref true cfg.gc cfg.edge false cfg.par P.permT P.wingT P.edgeKeysT with
   | error e => rfl
   | ok x =>
@@ -246,8 +246,8 @@ theorem aligned_sub (samp : List SRow) (ref : List RRow) (cn : List SRow)
     coordinate although targets and antitargets are adjusted separately, concatenated and re-sorted on both sides.
     Side conditions: the two shuffling permutations are permutations; no coordinate occurs twice among the sample
     bins; ties of the genomic order have equal coordinates (`KeysSortable`, see `keysSortable_of_distinct_names`). -/
-theorem doFix_bin_for_bin (tgt anti : List SRow) (ref : List RRow) (cfg : FixCfg) (P : FixParams) (outs : List FixOut)
-    (h : doFix tgt anti ref cfg P = .ok outs)
+theorem doFixCore_bin_for_bin (tgt anti : List SRow) (ref : List RRow) (cfg : FixCfg) (P : FixParams) (outs : List FixOut)
+    (h : doFixCore tgt anti ref cfg P = .ok outs)
     (hpT : IsPerm P.permT (goodRows (sortS tgt) ref).length)
     (hpA : IsPerm P.permA (goodRows (sortS anti) ref).length)
     (hks : KeysSortable (tgt ++ anti)) (hnd : hasDup ((tgt ++ anti).map sKey) = false) :
@@ -309,5 +309,34 @@ theorem doFix_bin_for_bin (tgt anti : List SRow) (ref : List RRow) (cfg : FixCfg
         have hk := keys_aligned (tgt ++ anti) hks _ _ hsub (sortS_sorted _) (sortR_sorted _) hp
         obtain ⟨c, hc⟩ := fixBody_final cnT cnA ref cfg P _ _ hpr (sortS_sorted _) hgood hk
         exact ⟨cnT, cnA, rfT, rfA, s1, s2, c, rfl, rfl, hc⟩
+
+/-- the statement for `doFix` itself (which first refuses a bin shared by the two sample tables) -/
+theorem doFix_bin_for_bin (tgt anti : List SRow) (ref : List RRow) (cfg : FixCfg) (P : FixParams) (outs : List FixOut)
+    (h : doFix tgt anti ref cfg P = .ok outs)
+    (hpT : IsPerm P.permT (goodRows (sortS tgt) ref).length)
+    (hpA : IsPerm P.permA (goodRows (sortS anti) ref).length)
+    (hks : KeysSortable (tgt ++ anti)) (hnd : hasDup ((tgt ++ anti).map sKey) = false) :
+    ∃ (cnT cnA : List SRow) (rfT rfA : List RRow) (s1 s2 c : Rat),
+      loadAdjust tgt ref true cfg.gc cfg.edge false cfg.par P.permT P.wingT P.edgeKeysT = .ok (cnT, rfT, s1) ∧
+      loadAdjust anti ref false cfg.gc false cfg.rmask cfg.par P.permA P.wingA = .ok (cnA, rfA, s2) ∧
+      outs.length = (cnT ++ cnA).length ∧
+      (outs.map (fun o => sKey o.row)).Perm ((cnT ++ cnA).map sKey) ∧
+      (outs.map (·.row)).Pairwise (fun a b => sSortLe a b = true) ∧
+      ∀ o ∈ outs, ∃ s ∈ cnT ++ cnA, ∃ q ∈ ref, sKey s = sKey o.row ∧ rKey q = sKey o.row ∧ badBin q = false ∧
+        o.row.log2 = s.log2 - q.log2 + c := by
+  unfold doFix at h
+  split at h
+  · exact absurd h (by simp)
+  · exact doFixCore_bin_for_bin tgt anti ref cfg P outs h hpT hpA hks hnd
+
+/-- a bin occurring in both sample tables is refused -/
+theorem doFix_rejects_shared_bin (tgt anti : List SRow) (ref : List RRow) (cfg : FixCfg) (P : FixParams)
+    (r : SRow) (ht : r ∈ tgt) (a : SRow) (ha : a ∈ anti) (hk : sKey r = sKey a) :
+    doFix tgt anti ref cfg P = .error .dupSample := by
+  unfold doFix
+  have : (tgt.map sKey).any (fun k => (anti.map sKey).contains k) = true := by
+    simp only [List.any_eq_true, List.mem_map]
+    exact ⟨sKey r, ⟨r, ht, rfl⟩, by simp only [List.contains_iff_mem, List.mem_map]; exact ⟨a, ha, hk.symm⟩⟩
+  rw [if_pos this]
 
 end CnvVerif
